@@ -1,0 +1,9 @@
+//go:build verif
+
+// Contracts for the deductive verifier in /verif (comment-only: adds no declarations).
+package okta
+
+//@ use sync
+
+// ---- C16: the cache of recent Okta sessions is shared by every request and accessed only under its mutex ---------
+//@ guarded_by PasswordAuthenticator.mutex : PasswordAuthenticator.recentAuth  #C16.okta-mutex @C16
